@@ -159,6 +159,7 @@ int parse_instruction_epiphany(AsmContext *asm_context, char *instr)
         else
       {
         print_error_unexp(asm_context, token);
+        return -1;
       }
 
       token_type = tokens_get(asm_context, token, TOKENLEN);
